@@ -10,6 +10,9 @@ VARIANTS = [
  ("every_write_synced", ["C02", "C03", "C12"], "src/db_impl.c", "      if (rc == LDB_OK && options->sync)\n        rc = ldb_wfile_sync(db->logfile);", "      if (rc == LDB_OK)\n        rc = ldb_wfile_sync(db->logfile);"),
  ("gc_deletes_in_reverse_order", ["C13", "C05", "C01"], "src/db_impl.c", "  for (i = 0; i < (int)to_delete.length; i++) {\n    const char *filename = to_delete.items[i];", "  for (i = (int)to_delete.length - 1; i >= 0; i--) {\n    const char *filename = to_delete.items[i];"),
  ("extra_dir_sync_after_table", ["C02", "C12", "C17"], "src/builder.c", "    if (rc == LDB_OK)\n      rc = ldb_wfile_close(file);", "    if (rc == LDB_OK)\n      rc = ldb_wfile_close(file);\n\n    if (rc == LDB_OK)\n      rc = ldb_sync_dir(dbname);"),
+ ("manifest_number_always_redrawn", ["C13", "C17", "C05"], "src/db_impl.c", "      if (logs.items[i] == db->versions->manifest_file_number) {", "      if (logs.items[i] == db->versions->manifest_file_number || i == 0) {"),
+ ("reuse_logs_ignored", ["C05", "C13", "C03", "C17"], "src/db_impl.c", "  if (rc == LDB_OK && db->options.reuse_logs && last_log && compactions == 0) {", "  if (rc == LDB_OK && db->options.reuse_logs && last_log && compactions < 0) {"),
+ ("compaction_always_verifies_checksums", ["C11", "C01"], "src/version_set.c", "  options.verify_checksums = vset->options->paranoid_checks;", "  options.verify_checksums = 1;"),
  ("smaller_l0_trigger_delay", ["C09", "C08"], "src/db_impl.c", "      ldb_sleep_usec(1000);", "      ldb_sleep_usec(250);"),
 ]
 def sh(cmd, **kw):
